@@ -285,12 +285,65 @@ func runC03(p *core.Prog, r *core.Report, tier string) {
 			dutyDesc = ds.D(dutyV).String()
 		}
 		// slot expression of that duty
+		// the slot handed in beside the duty: a parameter that every caller fills with <duty argument>.Slot()
+		paramSlotOfDuty := func(x *core.VD) bool {
+			xv := x.Val
+			for k := 0; k < 4; k++ {
+				switch y := xv.(type) {
+				case *ssa.MakeInterface:
+					xv = y.X
+				case *ssa.ChangeType:
+					xv = y.X
+				case *ssa.Convert:
+					xv = y.X
+				}
+			}
+			prm, ok := xv.(*ssa.Parameter)
+			if !ok || dutyV == nil {
+				return false
+			}
+			g := prm.Parent()
+			dq := paramBehind(dutyV)
+			if dq == nil || dq.Parent() != g {
+				return false
+			}
+			pi, di := -1, -1
+			for i, q := range g.Params {
+				if q == prm {
+					pi = i
+				}
+				if q == dq {
+					di = i
+				}
+			}
+			n := p.CallGraph().Nodes[g]
+			if n == nil || pi < 0 || di < 0 || len(n.In) == 0 {
+				return false
+			}
+			for _, e := range n.In {
+				if e.Site == nil {
+					return false
+				}
+				args := e.Site.Common().Args
+				if pi >= len(args) || di >= len(args) {
+					return false
+				}
+				d := ds.D(args[pi])
+				if !(d.Kind == "call" && strings.HasSuffix(d.Name, ".Slot") && len(d.Args) >= 1 && d.Args[0].Val == args[di]) {
+					return false
+				}
+			}
+			return true
+		}
 		slotOf := func(d *core.VD) bool {
 			if d == nil {
 				return false
 			}
 			return d.Any(func(x *core.VD) bool {
 				if x.Kind == "call" && strings.HasSuffix(x.Name, ".Slot") && len(x.Args) >= 1 && x.Args[0].String() == dutyDesc {
+					return true
+				}
+				if x.Kind == "param" && paramSlotOfDuty(x) {
 					return true
 				}
 				// aggregation duties are literals built from the attestation/duty being iterated
@@ -1224,4 +1277,40 @@ func checkChainTimeTruncates(p *core.Prog, r *core.Report, rule, consequence str
 		r.Hold(rule, "chaintime|elapsed-time-truncated", "", fmt.Sprintf("%d clock readings in the chain time service, none rounded", nTime))
 	}
 	r.Floor(rule+" clock readings in the chain time service", nTime, 2)
+}
+
+// paramBehind follows a value through captured-variable cells and free-variable bindings to the parameter it is a
+// copy of (nil when it is anything else).
+func paramBehind(v ssa.Value) *ssa.Parameter {
+	for depth := 0; depth < 8 && v != nil; depth++ {
+		switch x := v.(type) {
+		case *ssa.Parameter:
+			return x
+		case *ssa.UnOp:
+			if x.Op != token.MUL {
+				return nil
+			}
+			v = x.X
+		case *ssa.FreeVar:
+			v = core.FreeVarBinding(x)
+		case *ssa.Alloc:
+			var stored ssa.Value
+			n := 0
+			if x.Referrers() != nil {
+				for _, ref := range *x.Referrers() {
+					if st, ok := ref.(*ssa.Store); ok && st.Addr == ssa.Value(x) {
+						stored = st.Val
+						n++
+					}
+				}
+			}
+			if n != 1 {
+				return nil
+			}
+			v = stored
+		default:
+			return nil
+		}
+	}
+	return nil
 }
